@@ -3,7 +3,7 @@
    plus dynamic detection (suite c20, Go race detector).  The property is REFUTED for the object
    fields (the default managers publish pointers that handlers mutate) and holds for the maps.
    Statements only; proofs in Proofs/C20Proofs.v, model in Model/Access.v. *)
-From Verif Require Import Base Scope Types Prog Pop Token Authorize Access C20Proofs.
+From Verif Require Import Base Scope Types Prog Pop Token Authorize System Config Access AccessOwn C20Proofs C20OwnProofs C20OwnGeneral Race.
 Local Open Scope N_scope.
 
 (* Every access a handler program performs (any program over the storage calls, any store, any
@@ -52,6 +52,135 @@ Theorem C20_refuted :
 Proof. exact (conj refuted_grant (conj refuted_session refuted_client)). Qed.
 Print Assumptions C20_refuted.
 
+(* ---- which object an in-place write hits (Model/AccessOwn.v) ----
+   trace_own refines trace by the sessions a request holds PRIVATELY (a lookup the handler follows with a
+   copy; cp says which).  The refined summaries obey the same discipline, so the two theorems above hold of
+   them verbatim; with a handler that copies nothing trace_own IS trace. *)
+Theorem own_accesses_disciplined : forall has cp A (p : prog A) priv s,
+  Forall (fun a => disciplined a = true) (trace_own has cp priv p s).
+Proof. intros. apply trace_own_disc. Qed.
+Print Assumptions own_accesses_disciplined.
+
+Theorem own_object_races_characterised : forall has cp cq A B (p : prog A) (q : prog B) pp pq s1 s2 a b,
+  In a (trace_own has cp pp p s1) -> In b (trace_own has cq pq q s2) ->
+  (is_map (ac_loc a) = true -> races a b = false) /\
+  (races a b = true <->
+   exists k i f, ac_loc a = LField k i f /\ ac_loc b = LField k i f /\
+                 (unsync_write a = true \/ unsync_write b = true)).
+Proof.
+  intros has cp cq A B p q pp pq s1 s2 a b Ha Hb.
+  pose proof (proj1 (Forall_forall _ _) (trace_own_disc has cp p pp s1) a Ha) as Da.
+  pose proof (proj1 (Forall_forall _ _) (trace_own_disc has cq q pq s2) b Hb) as Db.
+  split; [intros M; apply maps_no_race; assumption|apply object_races; assumption].
+Qed.
+Print Assumptions own_object_races_characterised.
+
+Theorem trace_own_without_copies : forall has A (p : prog A) s, trace_own has nothing_copied [] p s = trace has p s.
+Proof. intros. apply trace_own_nothing. Qed.
+Print Assumptions trace_own_without_copies.
+
+(* first_request_scalars_private - for EVERY world (profile, options, static clients), request (with or without
+   request_uri, any policy verdict), clock, set of jwks_uri clients and store in which the id a new session would get
+   is not yet taken (ids are minted per operation: Proofs/Fresh.v): the first request of an authorization
+   (GET/POST /authorize, Authorize.init_auth) performs NO unsynchronised write to a scalar member of a stored
+   session.  It works on a new session (stored only by its final Save) or on a copy of the pushed one; the only
+   members of shared memory it writes outside a lock are the maps the shallow copy shares (K20a, below). *)
+Theorem first_request_scalars_private : forall has w n now r st,
+  (forall x, In x (st_asess st) -> a_id x <> mint n KSessId) ->
+  scalar_session_writes (trace_own has par_copied [] (init_auth w n now r) st) = [].
+Proof. intros. apply first_request_scalars_private_lemma. apply not_stored_of_fresh. assumption. Qed.
+Print Assumptions first_request_scalars_private.
+
+(* the hypothesis is satisfiable and the conclusion not vacuous: the FAPI 2.0 scenario below - the id of request 1
+   is free in the store the push left, the request does write shared memory (the nonce claim map) *)
+Example first_request_applies :
+  let su := setup_of (own_scn PFapi2 "code" own_ok) in
+  stored (mint (su_base su) KSessId) (su_store su) = false /\
+  session_writes (own_trace par_copied (own_scn PFapi2 "code" own_ok)) <> [].
+Proof. vm_compute. split; [reflexivity|discriminate]. Qed.
+
+(* pushed_session_scalars_private: the FIRST request of an authorization that presents a pushed request_uri
+   (internal/authorize.initAuth -> authnSessionWithPAR, which continues with a copy of the stored session),
+   for every profile x response type the profiles admit (own_cells: OpenID code / code id_token / id_token /
+   token / code token, FAPI 1.0 code id_token, FAPI 2.0 code) and every verdict of the policy (success, login
+   page, failure): the request is served (page or redirect) and NO scalar member of a stored session is
+   written outside a lock - in particular the summary does not race with the index scans of other requests;
+   what is written are the two map-valued members the shallow copy shares (K20a below). *)
+Theorem pushed_session_scalars_private : forall prof rt pol, In (prof, rt) own_cells -> In pol own_pols ->
+  let s := own_scn prof rt pol in
+  own_live s = true /\
+  scalar_session_writes (own_trace par_copied s) = [] /\
+  (forall site f, In (site, f) (session_writes (own_trace par_copied s)) -> In site map_sites /\ is_map_member f = true) /\
+  some_race (own_trace par_copied s) (other_scan s) = false.
+Proof.
+  intros prof rt pol Hc Hp s.
+  pose proof (for_cells_spec _ own_cells_live _ _ _ Hc Hp) as H1.
+  pose proof (for_cells_spec _ own_scalar_private _ _ _ Hc Hp) as H2.
+  pose proof (for_cells_spec _ own_map_writes _ _ _ Hc Hp) as H3.
+  pose proof (for_cells_spec _ copy_no_race_with_scans _ _ _ Hc Hp) as H4.
+  cbv beta in H2, H3, H4. fold s in H1, H2, H3, H4.
+  split; [exact H1|]. split; [destruct (scalar_session_writes _); [reflexivity|discriminate]|].
+  split; [|apply negb_true_iff; exact H4].
+  intros site f Hin. rewrite forallb_forall in H3. specialize (H3 _ Hin). cbn [fst snd] in H3.
+  apply andb_true_iff in H3 as [A B]. split; [|exact B].
+  apply mem_In. exact A.
+Qed.
+Print Assumptions pushed_session_scalars_private.
+
+(* pushed_session_without_copy_races: the same requests served by a handler that keeps the stored session
+   (cp = nothing_copied; under a FAPI profile: returning the looked-up session before the copy is made):
+   internal/authorize.initAuthnSession (and authorizeAuthnSession, SetUserID, GrantScopes) write scalar
+   members of the STORED session with no lock, and these writes race with the scans SessionByPushedAuthReqID /
+   SessionByAuthCode / SessionByCallbackID of ANY other request.  The dynamic check names these writes
+   <site>[initAuth]; none of them is a known finding. *)
+Theorem pushed_session_without_copy_races : forall prof rt pol, In (prof, rt) own_cells -> In pol own_pols ->
+  let s := own_scn prof rt pol in
+  In "internal/authorize.initAuthnSession" (map fst (scalar_session_writes (own_trace nothing_copied s))) /\
+  some_race (own_trace nothing_copied s) (other_scan s) = true.
+Proof.
+  intros prof rt pol Hc Hp s.
+  pose proof (for_cells_spec _ no_copy_writes_stored _ _ _ Hc Hp) as H. cbv beta in H. fold s in H.
+  apply andb_true_iff in H as [A B]. split; [|exact B].
+  apply existsb_exists in A as [x [Hx E]]. apply seqb_eq in E. rewrite <- E. apply in_map. exact Hx.
+Qed.
+Print Assumptions pushed_session_without_copy_races.
+
+(* pushed_session_copy_is_shallow (KNOWN FINDING K20a - the property fails here): every such request writes the
+   nonce claim into the AdditionalIDTokenClaims map the copy shares with the stored session, so two requests
+   presenting the same request_uri race with each other (write/write on a Go map). *)
+Theorem pushed_session_copy_is_shallow : forall prof rt pol, In (prof, rt) own_cells -> In pol own_pols ->
+  let s := own_scn prof rt pol in
+  In (gapi ++ "SetIDTokenClaim[initAuth]")%string (map fst (session_writes (own_trace par_copied s))) /\
+  some_race (own_trace par_copied s) (own_trace par_copied s) = true.
+Proof.
+  intros prof rt pol Hc Hp s.
+  pose proof (for_cells_spec _ own_nonce_written _ _ _ Hc Hp) as A.
+  pose proof (for_cells_spec _ shallow_copy_races _ _ _ Hc Hp) as B. cbv beta in A, B. fold s in A, B.
+  split; [|exact B].
+  apply existsb_exists in A as [x [Hx E]]. apply seqb_eq in E. rewrite <- E. apply in_map. exact Hx.
+Qed.
+Print Assumptions pushed_session_copy_is_shallow.
+
+(* static_client_never_written: the client object held by the configuration (WithStaticClient) is never
+   written by client authentication, with or without a jwks_uri (Context.Client hands out a copy when there is
+   one), so two requests authenticating one static client never race on it; a client held by the client
+   STORAGE that has a jwks_uri is written (known finding K5: FetchPublicJWKS caches on the stored object);
+   and a Context.Client that hands out the shared static object would make FetchPublicJWKS / fetchJWKS race
+   with themselves - the dynamic check names these writes <site>[static-client]; not known. *)
+Theorem static_client_never_written : forall has_uri i,
+  Forall (fun a => ac_write a = false) (authn_accesses CStatic has_uri i) /\
+  some_race (authn_accesses CStatic has_uri i) (authn_accesses CStatic has_uri i) = false.
+Proof. intros. split; [apply static_never_written|apply static_no_race]. Qed.
+Print Assumptions static_client_never_written.
+
+Theorem client_cache_races : forall i,
+  some_race (authn_accesses CStored true i) (authn_accesses CStored true i) = true /\
+  some_race (authn_accesses_no_copy CStatic true i) (authn_accesses_no_copy CStatic true i) = true /\
+  map ac_site (filter ac_write (authn_accesses_no_copy CStatic true i)) =
+    ["pkg/goidc.(*Client).FetchPublicJWKS[static-client]"; "pkg/goidc.(*Client).fetchJWKS[static-client]"]%string.
+Proof. intros. split; [apply stored_uri_races|split; [apply static_no_copy_races|apply static_no_copy_sites]]. Qed.
+Print Assumptions client_cache_races.
+
 (* the signatures these witnesses produce, in the vocabulary of the dynamic check *)
 Example predicted_examples :
   predicted_signature "internal/storage.(*GrantSessionManager).SessionByTokenID.func1:read" "internal/token.updateRefreshTokenGrantSession:write" = true /\
@@ -64,7 +193,20 @@ Example predicted_examples :
      nor for a write site the model does not list (a per-request copy of the client must not reach shared memory) *)
   predicted_signature "internal/storage.(*GrantSessionManager).DeleteByAuthorizationCode:write:map" "internal/storage.(*GrantSessionManager).firstSession:read:map" = false /\
   predicted_signature "internal/authorize.clientWithRedirectURI:write" "internal/authorize.clientWithRedirectURI:write" = false /\
-  predicted_signature "internal/authorize.*:read" "internal/authorize.clientWithRedirectURI:write" = false.
+  predicted_signature "internal/authorize.*:read" "internal/authorize.clientWithRedirectURI:write" = false /\
+  (* writers below internal/authorize.initAuth (private session) and writers of static clients are not predicted ... *)
+  predicted_signature "internal/authorize.initAuthnSession[initAuth]:write" "internal/storage.(*AuthnSessionManager).SessionByCallbackID.func1:read" = false /\
+  predicted_signature "internal/authorize.authorizeAuthnSession[initAuth]:write" "internal/storage.(*AuthnSessionManager).SessionByAuthCode.func1:read" = false /\
+  predicted_signature "pkg/goidc.(*AuthnSession).SetUserID:write" "pkg/goidc.(*AuthnSession).SetUserID[initAuth]:write" = true /\
+  predicted_signature "pkg/goidc.(*AuthnSession).SetUserID[initAuth]:write" "pkg/goidc.(*AuthnSession).SetUserID[initAuth]:write" = false /\
+  predicted_signature "internal/oidc.*:read" "pkg/goidc.(*Client).FetchPublicJWKS[static-client]:write" = false /\
+  predicted_signature "pkg/goidc.(*Client).FetchPublicJWKS[static-client]:write" "pkg/goidc.(*Client).FetchPublicJWKS[static-client]:write" = false /\
+  (* ... except the two map members the shallow copy of the pushed session shares (K20a) *)
+  predicted_signature "pkg/goidc.(*AuthnSession).SetIDTokenClaim[initAuth]:write" "pkg/goidc.(*AuthnSession).SetIDTokenClaim[initAuth]:write" = true /\
+  predicted_signature "pkg/goidc.(*AuthnSession).*:read" "pkg/goidc.(*AuthnSession).StoreParameter[initAuth]:write" = true /\
+  (* the code's bytes, published by the callback's in-place write; the reader in internal/oidc of a session being saved *)
+  predicted_signature "internal/authorize.*:read" "internal/strutil.Random:write" = true /\
+  predicted_signature "internal/authorize.authorizeAuthnSession:write" "internal/oidc.*:read" = true.
 Proof. vm_compute. repeat split. Qed.
 Eval vm_compute in race_pairs (trace no_jwks_uri c20_refresh c20_store) (trace no_jwks_uri c20_introspect c20_store).
 Eval vm_compute in race_pairs (trace no_jwks_uri c20_callback c20_store) (trace no_jwks_uri c20_code c20_store).
